@@ -84,6 +84,18 @@ class MaskFlow(Forward):
             name = r.qual.rsplit('.', 1)[-1] if r.kind == 'external' else None
             if name in SHAPE_LIKE and e.args:
                 return self.val(e.args[0], st, report)
+            if name in ('zeros', 'ones', 'empty', 'full') and e.args:
+                # zeros(X.shape[0]) / zeros(len(X)) : one entry per batch element when X is full-length
+                a0 = e.args[0]
+                src = None
+                if isinstance(a0, ast.Subscript) and isinstance(a0.value, ast.Attribute) and a0.value.attr == 'shape' \
+                        and isinstance(a0.slice, ast.Constant) and a0.slice.value == 0:
+                    src = a0.value.value
+                elif isinstance(a0, ast.Call) and isinstance(a0.func, ast.Name) and a0.func.id == 'len' and a0.args:
+                    src = a0.args[0]
+                if src is not None and self.val(src, st, False) == FULL:
+                    return FULL
+                return UNK
             if name in ELEMENTWISE_FUNCS and e.args:
                 return self.combine([self.val(a, st, report) for a in e.args], e, report)
             if isinstance(e.func, ast.Attribute) and e.func.attr in ('copy', 'astype', 'conj', 'real', 'reshape', 'ravel', 'flatten'):
